@@ -24,7 +24,13 @@ const OPS: &[&str] = &[
     "X INCR K", "X APPEND K 7", "X DEL K", "X GETSET K 9",
     "X EVAL local\\x20v=redis.call('GET',KEYS[1])\\x20redis.call('SET',KEYS[1],(v\\x20or\\x20'')..'8')\\x20return\\x20v 1 K",
     "PG Q", "FS Q 0",
+    // 16.. : breadth of single-key read-modify-write / conditional commands through the generic path
+    "X SETNX K 4", "X SET K 5 NX", "X SET K 6 XX", "X SET K 7 GET", "X GETDEL K", "X INCRBY K 3", "X DECR K", "X INCRBYFLOAT K 1.5", "X SETRANGE K 1 Z", "X STRLEN K",
+    "X LPUSH K a", "X RPUSH K b", "X LPOP K", "X RPOP K", "X LLEN K", "X SADD K m", "X SREM K m", "X SPOP K", "X SCARD K",
+    "X HSET K f 1", "X HSETNX K f 2", "X HINCRBY K f 1", "X HDEL K f", "X HGET K f", "X ZADD K 1 m", "X ZADD K NX 2 m", "X ZINCRBY K 1 m", "X ZREM K m", "X ZSCORE K m",
+    "X EXISTS K", "X TYPE K", "X EXPIRE K 100", "X PERSIST K", "X TTL K",
 ];
+const RMW_FROM: usize = 16;
 
 #[derive(Clone, Debug)]
 struct Single {
@@ -403,7 +409,8 @@ fn main() {
         .stdout(std::process::Stdio::null())
         .spawn();
     const EVAL: usize = 13;
-    let all: Vec<usize> = (0..OPS.len()).collect();
+    let all: Vec<usize> = (0..RMW_FROM).collect();
+    let rmw: Vec<usize> = [0usize, 1, 9, 10, 11, 12].into_iter().chain(RMW_FROM..OPS.len()).collect();
     let no_eval: Vec<usize> = all.iter().copied().filter(|o| *o != EVAL).collect();
     let core: Vec<usize> = vec![0, 1, 3, 4, 5, 6, 7, 8, 9]; // GET SET FG FS PG PS BG BS INCR
     let lua: Vec<usize> = vec![EVAL, 0, 1, 6, 9]; // EVAL GET SET PS INCR  (EVAL builds a Lua VM per call: kept in its own small group)
@@ -420,11 +427,13 @@ fn main() {
         ("2clients x 2ops with Lua, 2 shards", 2, 2, 2, lua.clone(), NONE, NONE),
         ("2clients x 2ops, 1 shard", 1, 2, 2, small.clone(), NONE, NONE),
         ("3clients x 2ops, 2 shards", 2, 3, 2, small[..4].to_vec(), 2, if thorough { 4 } else { 2 }),
+        ("RMW breadth: 2clients x 1op over 34 conditional/read-modify-write commands + SET/GET/INCR/APPEND/DEL/GETSET, 2 shards", 2, 2, 1, rmw.clone(), NONE, NONE),
         ("CONN: 2 connections x 2 pipelined commands, 2 shards", 2, 2, 2, conn_ops.clone(), NONE, NONE),
         ("CONN: 3 connections x 1 command, 1 shard", 1, 3, 1, conn_ops.clone(), NONE, NONE),
     ];
     if thorough {
         groups.push(("3clients x 1op, 1 shard", 1, 3, 1, all.clone(), NONE, NONE));
+        groups.push(("RMW breadth: 3clients x 1op, 1 shard", 1, 3, 1, rmw.clone(), 2, 3));
         groups.push(("2clients x 3ops, 2 shards", 2, 2, 3, small.clone(), 3, 5));
         groups.push(("3clients x 2ops with Lua, 1 shard", 1, 3, 2, vec![EVAL, 6, 9], 2, 3));
     }
